@@ -241,13 +241,14 @@ def checkFieldSets (objName : String) : List (List Field) → Seen → M Seen
     let s' ← checkFields objName fs [] s
     checkFieldSets objName rest s'
 
-def namesUnique (d : Device) : M Device := do
-  let step := fun (s : Seen) (o : Object) => do
-    if s.objects.contains (o.name, o.cfg) then throw (passErr "dup_object" [o.name])
-    let s1 := { s with objects := (o.name, o.cfg) :: s.objects }
-    checkFieldSets o.name o.fieldSets s1
-  let _ ← (allObjects d.objects).foldlM step ({} : Seen)
-  pure d
+def namesStep (s : Seen) (o : Object) : M Seen :=
+  if s.objects.contains (o.name, o.cfg) then throw (passErr "dup_object" [o.name])
+  else checkFieldSets o.name o.fieldSets { s with objects := (o.name, o.cfg) :: s.objects }
+
+def namesUnique (d : Device) : M Device :=
+  match (allObjects d.objects).foldlM namesStep ({} : Seen) with
+  | .ok _ => .ok d
+  | .error e => .error e
 
 /-! ### 4. enum_values_checked -/
 
